@@ -249,8 +249,11 @@ class NotApplicable(Exception):
 class Gen:
     def __init__(self, rng, ntables=3, max_tr=6, nlets=None, kinds=None, declared=True, shared_k=True,
                  append_inline=False, open_take=True, dup_names=True, forced=None, literal=False, functions=False, simple_sort=False,
-                 shapes=False, force_shape=None, key_join=False, side_kinds=None):
+                 shapes=False, force_shape=None, key_join=False, side_kinds=None, disj_filters=False):
         self.rng = rng
+        # disj_filters: every filter is a conjunction whose LAST conjunct is a disjunction, `(A && (B || C))`: splitting it into
+        # `filter A | filter (B || C)` leaves a filter with a top-level `||` that shares its clause with other filters
+        self.disj_filters = disj_filters
         # key_join: joins equate the unique key columns of both sides (inner / left), so that every left row has at most one
         # partner and the order of the left input stays determinate through the join
         self.key_join = key_join
@@ -442,7 +445,12 @@ class Gen:
         return ("derive {" + ", ".join(items) + "}", "( derive ( " + " ".join(sx) + " ) )", nf)
 
     def tr_filter(self, frame, sname):
-        e = ExprGen(self.rng, frame).gen(BOOL)
+        g = ExprGen(self.rng, frame)
+        if self.disj_filters:
+            a, b, c = g.cmp(1), g.cmp(1), g.cmp(1)
+            e = (f"({a[0]} && ({b[0]} || {c[0]}))", f"( and {a[1]} ( or {b[1]} {c[1]} ) )", BOOL)
+        else:
+            e = g.gen(BOOL)
         return (f"filter {e[0]}", f"( filter {e[1]} )", frame)
 
     def sort_keys(self, frame, total_p=0.7):
